@@ -2,11 +2,11 @@
 # Builds the framework from files on disk only (offline): the Coq development (full .vo build) and the Rust harness.
 set -e
 cd "$(dirname "$0")/.."
-export CARGO_NET_OFFLINE=true CARGO_TARGET_DIR=/verif/target
+export CARGO_NET_OFFLINE=true CARGO_TARGET_DIR="$(pwd)/target"
 mkdir -p work evidence replays
 python3 bin/extract_consts.py
 ( cd coq && coq_makefile -f _CoqProject -o Makefile >/dev/null && timeout 3000 make -j16 >work_make.log 2>&1 || { tail -50 work_make.log; exit 1; } ; rm -f work_make.log )
 cp /repo/Cargo.lock harness/Cargo.lock
 ( cd harness && timeout 1500 cargo build --offline --quiet )
-( cd /repo && CARGO_TARGET_DIR=/verif/target/cli timeout 1500 cargo build --offline --quiet )
+( T="$(pwd)/target/cli"; cd /repo && CARGO_TARGET_DIR="$T" timeout 1500 cargo build --offline --quiet )
 echo "setup ok"
